@@ -30,7 +30,11 @@ static inline uint64_t verif_nd_range(uint64_t lo, uint64_t hi) { uint64_t v = n
 #define ND_RANGE(lo, hi) verif_nd_range((lo), (hi))
 #define ASSUME(c) __CPROVER_assume(c)
 #define ASSERT(c, msg) __CPROVER_assert((c), "PROP: " msg)
+#ifdef VERIF_NO_WITNESS
+#define WITNESS() ((void)0)
+#else
 #define WITNESS() __CPROVER_assert(0, "WITNESS: end of harness reachable")
+#endif
 #define OBSERVE(x) ((void)0)
 #define VERIF_IS_CBMC 1
 #define VERIF_RANDOM_MODE() 0
